@@ -1,6 +1,8 @@
 """Fake frame and the inspect_frame model for the bytecode leg."""
 from __future__ import annotations
 
+import functools
+import io
 import types
 from typing import Any, Dict, List, Optional, Tuple
 
@@ -45,8 +47,38 @@ class DerivedDummyManager(DummyManager):
     """Inherits the whole protocol (cf. subclasses of contextlib.ExitStack, mixins providing __exit__)."""
 
 
+class CExitDummyManager(io.StringIO):
+    """A manager whose __exit__ is implemented in C (_io._IOBase.__exit__, like files and locks): the value stack holds
+    a builtin bound method, and what runs below the with statement's frame while the block is left is the Python close()."""
+
+    def __init__(self, i: int):
+        super().__init__()
+        self.i = i
+
+    def __repr__(self) -> str:
+        return f"<D{self.i}>"
+
+    def close(self) -> None:
+        super().close()
+
+    __aenter__ = DummyManager.__aenter__
+    __aexit__ = DummyManager.__aexit__
+
+
 def Dummy(i: int) -> DummyManager:
+    if i % 4 == 2:
+        return CExitDummyManager(i)  # type: ignore[return-value]
     return DerivedDummyManager(i) if i % 2 else DummyManager(i)
+
+
+def exit_frame_for(d: Any, is_async: bool) -> "FakeFrame":
+    """The frame that runs directly below the with statement's frame while d's (a)exit is in progress."""
+    bound = getattr(d, "__aexit__" if is_async else "__exit__")
+    if not hasattr(bound, "__func__"):
+        code = type(d).close.__code__           # C-level __exit__ calling back into Python
+    else:
+        code = bound.__func__.__code__
+    return FakeFrame(code, 0, {code.co_varnames[0]: d, "exc": ()})
 
 
 _unused = DummyManager  # (the class name contains an "a" on purpose: see C20's is_async derivation)
